@@ -402,6 +402,67 @@ def rule_top_empty(ctx, cd, rule_id: str):
     ctx.floor(rule_id, n, 4)
 
 
+def macros_visible(ts, t, lang=None):
+    """macros a template can call: its own plus those it imports by name from sibling templates ({% from 'x.j2' import a, b as c %})"""
+    N = ts.nodes
+    out = dict(ts.macros(t))
+    lang = lang or t.lang
+    for n in t.ast.find_all(N.FromImport):
+        if not isinstance(n.template, N.Const):
+            continue
+        try:
+            src = ts.get(lang, n.template.value)
+        except Exception:
+            continue
+        ms = ts.macros(src)
+        for nm in n.names:
+            orig, alias = (nm if isinstance(nm, tuple) else (nm, nm))
+            if orig in ms and alias not in out:
+                out[alias] = ms[orig]
+    return out
+
+
+def bodies_in_caller_terms(ts, t, lang=None, depth=2):
+    """[(node list, {macro parameter: argument node})]: the template's own top-level body, and the body of every visible helper
+    macro it calls - once per call site, with the parameters mapped to that call's arguments (print with j2front.xs_with(mapping))."""
+    N = ts.nodes
+    vis = macros_visible(ts, t, lang)
+    out = [([n for n in t.ast.body if not isinstance(n, N.Macro)], {})]
+    seen = set()
+
+    def calls_in(nodes, mapping, d):
+        for top in nodes:
+            for c in [top] + list(top.find_all(N.Call)):
+                if isinstance(c, N.Call) and isinstance(c.node, N.Name) and c.node.name in vis and c.dyn_args is None and c.dyn_kwargs is None:
+                    mac = vis[c.node.name]
+                    m2 = {}
+                    for i, a in enumerate(mac.args):
+                        val = c.args[i] if i < len(c.args) else next((k.value for k in c.kwargs if k.key == a.name), None)
+                        if val is None:
+                            j = i - (len(mac.args) - len(mac.defaults))
+                            val = mac.defaults[j] if 0 <= j < len(mac.defaults) else None
+                        if val is not None:
+                            if mapping:
+                                import copy
+                                val = copy.deepcopy(val)
+                                holder = N.Tuple([val], "load")
+                                j2front._replace_names(N, holder, mapping)
+                                val = holder.items[0]
+                            m2[a.name] = val
+                    key = (id(mac), id(c))
+                    if key in seen or d <= 0:
+                        continue
+                    seen.add(key)
+                    out.append((list(mac.body), m2))
+                    calls_in(mac.body, m2, d - 1)
+
+    calls_in(out[0][0], {}, depth)
+    for m in ts.macros(t).values():
+        out.append((list(m.body), {}))
+        calls_in(m.body, {}, depth)
+    return out
+
+
 # ---- the generated routine's body is the codec macro's output for every type ------------------------------------------------
 def rule_entry(ctx, cd, which: str, rule_id: str):
     """The body of <T>_serialize_/_deserialize_ (C), serialize()/deserialize() (C++) and _serialize_/_deserialize_ (Python) is
